@@ -70,25 +70,32 @@ def one(sid, tier, all_checks, confirm):
 
 
 def main():
-    args = [a for a in sys.argv[1:] if not a.startswith('--')]
+    args = [a for a in sys.argv[1:] if not a.startswith('-') and not a.isdigit()]
     tier = 'thorough' if '--thorough' in sys.argv else 'quick'
     ids = sorted(x for x in os.listdir(SEEDED) if os.path.isdir(os.path.join(SEEDED, x)) and (not args or any(x.startswith(a) for a in args)))
     keep = tempfile.mkdtemp(prefix='vf_evidence_', dir='/tmp')
     shutil.copytree(os.path.join(HERE, 'evidence'), os.path.join(keep, 'evidence'))
     out = []
     try:
-        for sid in ids:
+        import concurrent.futures
+        jobs = int(sys.argv[sys.argv.index('-j') + 1]) if '-j' in sys.argv else 1
+
+        def safe(sid):
             try:
-                r = one(sid, tier, '--all-checks' in sys.argv, '--confirm' in sys.argv)
+                return one(sid, tier, '--all-checks' in sys.argv, '--confirm' in sys.argv)
             except RuntimeError as e:
                 # the library moved on under the patch (a later repair touched the same lines): the seed has to be rebased by hand
-                print('PATCH-FAILED ' + sid, str(e).splitlines()[0], flush=True)
-                out.append({'id': sid, 'caught': False, 'patch_failed': True})
-                continue
-            out.append(r)
-            print(('CAUGHT ' if r['caught'] else 'MISSED ') + sid, r['property'], r['own'],
-                  {k: r[k] for k in ('pinned_suite_passes_with_change', 'demo_without_change', 'demo_with_change') if k in r},
-                  ('also: ' + ','.join(sorted(r.get('others', {})))) if r.get('others') else '', flush=True)
+                return {'id': sid, 'caught': False, 'patch_failed': True, 'why': str(e).splitlines()[0]}
+
+        with concurrent.futures.ThreadPoolExecutor(jobs) as pool:
+            for r in pool.map(safe, ids):
+                out.append(r)
+                if r.get('patch_failed'):
+                    print('PATCH-FAILED ' + r['id'], r['why'], flush=True)
+                    continue
+                print(('CAUGHT ' if r['caught'] else 'MISSED ') + r['id'], r['property'], r['own'],
+                      {k: r[k] for k in ('pinned_suite_passes_with_change', 'demo_without_change', 'demo_with_change') if k in r},
+                      ('also: ' + ','.join(sorted(r.get('others', {})))) if r.get('others') else '', flush=True)
     finally:
         shutil.rmtree(os.path.join(HERE, 'evidence'), ignore_errors=True)
         shutil.copytree(os.path.join(keep, 'evidence'), os.path.join(HERE, 'evidence'))
